@@ -7,6 +7,15 @@ TECH = 'bounded symbolic execution of the repository source (rsx interpreter ove
 NOTE = ('trusted: z3, syn front end (astdump), the rsx interpreter and its std/syn/fs library models (validated per sampled path '
         'against the natively compiled repository), the oracle in the harness; bounds and exclusions are in evidence.coverage.bounds/outside_bounds')
 CLAIMED = {
+    'C01': ('§4 C01', 'the whole generation path (analysis, contexts, Tera templates) is executed symbolically on projects with one symbolic dimension each '
+            '(names, rename values, event names, validator messages) and on enumerated README type expressions; every written file is read by an independent '
+            'TypeScript-subset reader whose reject states are counterexamples, replayed through the real CLI'),
+    'C04': ('§4 C04', 'symbolic parameter names and a symbolic last path segment of the parameter type; keys of the Params declaration and of the object reaching '
+            'invoke are compared with Tauri\'s naming (heck) and the injected-parameter list, both modes'),
+    'C05': ('§4 C05', 'type skeletons (constructor chains of depth <=2, thorough 3) with a symbolic leaf type name at the five translation sites; the emitted '
+            'TypeScript type is parsed with TypeScript precedence and its JSON shape compared with the serde denotation'),
+    'C06': ('§4 C06', 'symbolic identifiers and attribute strings under every rename_all convention and %d attribute patterns; emitted keys/literals are compared '
+            'with serde_derive\'s own case.rs executed by the same engine' % 18),
     'C20': ('§4 C20', 'all digraphs on 3 nodes x all requested subsets x all iteration orders of every hash container (thorough: 4 nodes, out-degree<=2): '
             'result checked against graph ground truth; a counterexample is a concrete graph + order, replayed on the native build'),
 }
